@@ -4,7 +4,10 @@
    any process), crashes, lease revocations, cursor rewinds and duplicated deliveries; [hist_ok] excludes only stale reads
    (C04) and negative clock steps.
    PARTIAL: the statement "at quiescence every run's final status and object equal those of the failure-free execution"
-   is NOT proved as one theorem; what is proved is its ingredients — nothing is stranded (C01_not_stranded ...), the
+   is NOT proved as one theorem. Proved for EVERY history: every committed write of a run is the first write of a new run or the
+   failure-free outcome, on the PERSISTED record it replaced, of a function configured for that record's status — or keeps status
+   and object, or is the data-deletion rewrite (C01_every_write_is_the_failure_free_write, C01_history_is_the_failure_free_path);
+   so a run only ever moves along its failure-free path, and C01_not_stranded says it is not left part-way. Also proved: its ingredients — nothing is stranded (C01_not_stranded ...), the
    persisted effect of a function is applied on the persisted version only and moves the version by exactly one
    (exactly-once effect), and WHAT a step / callback / timeout handler writes is, for every state and fault plan, either a
    pause / cancel keeping the status and object the function saw, or exactly the failure-free outcome of the configured
@@ -85,12 +88,14 @@ Print Assumptions C01_effect_is_failure_free_callback.
 (* what [adv_ok] says about a Store token *)
 Theorem C01_adv_ok_reads : forall c p r a tr, adv_ok c (TStore p r a :: tr) ->
   (exists u view pers now pl tr', tr = TUser u view pers now pl :: tr' /\ expl_ctl view r) \/
-  (exists k key res lk u view pers now z tr', tr = TLookup k key res lk :: TUser u view pers now (URet z) :: tr' /\ expl_adv c u view z r).
+  (exists k key res lk u view pers now z tr', tr = TLookup k key res lk :: TUser u view pers now (URet z) :: tr' /\ expl_adv c u view z r) \/
+  r_ver r = 1 \/ (exists k, In k tr /\ src_of k r).
 Proof.
-  intros c p r a tr H. inversion H as [|t tr' Hn Hr|p' r' a' u view pers now pl tr' He Hr|p' r' a' k key res lk u view pers now z tr' He Hr]; subst.
+  intros c p r a tr H. inversion H as [|t tr' Hn Hr|p' r' a' tr' Hs Hr|p' r' a' u view pers now pl tr' Hu He Hr|p' r' a' k key res lk u view pers now z tr' He Hr]; subst.
   - destruct Hn.
+  - right. right. exact Hs.
   - left. eauto 10.
-  - right. eauto 12.
+  - right. left. eauto 12.
 Qed.
 Print Assumptions C01_adv_ok_reads.
 
@@ -98,3 +103,39 @@ Print Assumptions C01_adv_ok_reads.
 Theorem C01_retries_do_not_change_the_outcome : forall b n seed m z, eval_beh b n seed = (m, ARet z) -> final_beh b seed = (m, ARet z).
 Proof. exact eval_final. Qed.
 Print Assumptions C01_retries_do_not_change_the_outcome.
+
+(* EVERY WRITE OF EVERY HISTORY IS THE FAILURE-FREE WRITE (proofs/Determined.v, with proofs/HistVersions.v "the version identifies
+   the write" and proofs/StepStatus.v "a step function runs only for a run persisted at its status"). Whatever the order of
+   operations, fault plan, crashes, lease losses, rewinds and duplicate deliveries: a Store that replaces the persisted record p by r
+   - keeps p's status and object (pause, resume, cancel, deletion request: a run-state change only), or
+   - is the data-deletion rewrite (DataDeleted, same status), or
+   - writes exactly what a function the builder configured FOR p's STATUS (its step, one of its callbacks, one of its timeouts)
+     returns on p's object once its transient failures are over: that status, and the object it leaves.
+   Which of several enabled functions acts first is up to the schedule; WHAT is written never depends on faults or retries. *)
+From WF Require Import proofs.HistVersions proofs.Determined.
+Theorem C01_every_write_is_the_failure_free_write : forall c ops, hist_ok ops ->
+  forall p r a, In (TStore (Some p) r a) (trace_of c ops) ->
+  (r_status r = r_status p /\ r_obj r = r_obj p) \/
+  (r_state r = RSDataDeleted /\ r_status r = r_status p) \/
+  (exists u b mark, configured c u b (r_status p) /\
+     final_beh b (obj_seed (r_obj p)) = (mark, ARet (r_status r)) /\
+     r_obj r = (if mark then mark_obj (r_obj p) (r_status p) else r_obj p)).
+Proof. exact every_write_is_failure_free. Qed.
+Print Assumptions C01_every_write_is_the_failure_free_write.
+
+(* the same read off the ghost history of committed writes (so: of the writes that took effect, whatever their call returned):
+   [lastrun h1 x] is the write of x's run that x replaced *)
+Theorem C01_history_is_the_failure_free_path : forall c ops, hist_ok ops ->
+  forall h1 x h2, w_hist (fst (run_ops c ops)) = h1 ++ x :: h2 ->
+  match lastrun h1 x with
+  | None => r_ver x = 1 /\ r_state x = RSInitiated /\ is_valid (ec_graph c) (r_status x) = true
+  | Some p => kept p x \/ scrubbed p x \/ advanced c p x
+  end.
+Proof. exact history_is_failure_free_path. Qed.
+Print Assumptions C01_history_is_the_failure_free_path.
+
+(* the record a run has at the end of a history is the last committed write of that run: the end of that path *)
+Theorem C01_current_is_the_last_write : forall c ops, hist_ok ops ->
+  forall x, In x (w_recs (fst (run_ops c ops))) -> last_opt (filter (by_run (r_run x)) (w_hist (fst (run_ops c ops)))) = Some x.
+Proof. exact current_is_last_write. Qed.
+Print Assumptions C01_current_is_the_last_write.
